@@ -79,43 +79,26 @@ private theorem parseOut_noFuel (o : ParseOut) : NoFuel o.toR := by
   cases o <;> simp [ParseOut.toR, NoFuel]
 
 private theorem coerceInt_noFuel (v : JV) : NoFuel (coerceInt v) := by
-  cases v with
-  | float t i c => cases i <;> cases c <;> simp [coerceInt, NoFuel] <;> exact rangeChecked_noFuel _ _
-  | str s a b =>
-    simp only [coerceInt]
-    split
-    · simp [NoFuel]
-    · split
-      · exact rangeChecked_noFuel _ _
-      · split
-        · exact rangeChecked_noFuel _ _
-        · simp [NoFuel]
-  | bool b => exact rangeChecked_noFuel _ _
-  | int n => exact rangeChecked_noFuel _ _
-  | null => simp [coerceInt, NoFuel]
-  | list l => simp [coerceInt, NoFuel]
-  | obj k => simp [coerceInt, NoFuel]
+  unfold coerceInt
+  repeat' split
+  all_goals first
+    | exact rangeChecked_noFuel _ _
+    | simp [NoFuel]
 
 private theorem coerceFloat_noFuel (v : JV) : NoFuel (coerceFloat v) := by
-  cases v with
-  | str s a b =>
-    simp only [coerceFloat]
-    split
-    · simp [NoFuel]
-    · split
-      · exact floatChecked_noFuel _ _
-      · simp [NoFuel]
-  | bool b => exact floatChecked_noFuel _ _
-  | int n => exact floatChecked_noFuel _ _
-  | float t i c => exact floatChecked_noFuel _ _
-  | null => simp [coerceFloat, NoFuel]
-  | list l => simp [coerceFloat, NoFuel]
-  | obj k => simp [coerceFloat, NoFuel]
+  unfold coerceFloat
+  repeat' split
+  all_goals first
+    | exact floatChecked_noFuel _ _
+    | simp [NoFuel]
 
 private theorem parseLiteral_noFuel (k : NamedT) (l : Lit) : NoFuel (parseLiteral k l) := by
   unfold parseLiteral
-  cases k <;> cases l <;> simp [NoFuel] <;> (try split) <;>
-    first | exact rangeChecked_noFuel _ _ | exact floatChecked_noFuel _ _ | simp [NoFuel]
+  repeat' split
+  all_goals first
+    | exact rangeChecked_noFuel _ _
+    | exact floatChecked_noFuel _ _
+    | simp [NoFuel]
 
 /-- `coerce_value` body: no fuel error if the recursive calls of strictly smaller measure have none -/
 private theorem coerceCore_noFuel {reg : Reg} {rec : Ty → JV → R} {t : Ty} {v : JV}
